@@ -114,9 +114,10 @@ def run(ctx):
                 r1.violation(key, "selection is a position in %r but the list handed to the constructor is %r" % (searched, lst_res), site_of(b, bb))
         else:
             r1.violation(key, "selection argument has provenance %r which is not bounded by the list (%s)" % (cur, verdict[1]), site_of(b, bb))
-    # later stores through references
-    for fk in sorted(reach):
-        b = prog.body(fk)
+    # later stores through references: looked for in the event methods with every helper spliced in
+    from . import roles as _roles
+    for fk in sorted(entry):
+        b = _roles.ib(prog, fk)
         for w in direct_writes(b):
             if w["op"] != "assign" or not w["fields"] or w["fields"][-1] != sel_field:
                 continue
@@ -136,8 +137,9 @@ def run(ctx):
                 if isinstance(pol, tuple) or pol == "otherwise":
                     if b.blocks[s]["term"]["discr_ty"] == "char":
                         gdesc.append("".join(sorted(chr(v) for v in (pol if isinstance(pol, tuple) else ()))))
-            # phi-joined char sets (matches! lowers to a bool temp): look at the char switch feeding it
-            charset = _charset_feeding(b, w["bb"])
+            # the set of key characters under which the store happens (whatever its spelling: matches!, a constant array, a predicate)
+            gdesc = []
+            charset = _guard_charset(prog, b, w["bb"])
             if charset is not None:
                 gdesc.append(charset)
             key = "store@%s[%s]" % (fk.split(">::")[-1].split("::")[-1], "|".join(gdesc))
@@ -368,3 +370,44 @@ def _builder_postdominates(prog, roles, ty, mods, rule, key):
 def _returns_list_suggestion(prog, n):
     f = prog.fns.get(n)
     return bool(f) and f.get("output") == builders.SUGG and "&mut" in (f.get("inputs") or [""])[0]
+
+
+def _guard_charset(prog, b, bb):
+    """Characters of the key (ASCII) for which the guarded block is reached, from the guards that test the key's character."""
+    from engine.analyses import PredEval
+    kfn = common.key_char_fn(prog)
+    sets = []
+    for (d, pol, s) in guards_of(b, bb):
+        t = b.blocks[s]["term"]
+        if isinstance(pol, tuple) and t["discr_ty"] == "char":
+            sets.append({chr(v) for v in pol})
+            continue
+        if pol is not True and pol is not False:
+            continue
+        if d.k == "call" and (d.a[0].endswith("[T]>::contains") or d.a[0].endswith("str>::contains")) and len(d.a[1]) == 2:
+            c0 = peel_conv(d.a[1][0])
+            while c0.k == "cast":
+                c0 = peel_conv(c0.a[1])
+            members = None
+            if is_const(c0, "array"):
+                members = {chr(x) for x in const_val(c0) if isinstance(x, int)}
+            elif is_const(c0, "str"):
+                members = set(const_val(c0))
+            elif c0.k == "agg" and c0.a[0] == "array":
+                members = {const_val(strip_refs(x)) for x in c0.a[1] if is_const(strip_refs(x), "char")}
+            if members is not None and contains_call(d.a[1][1], lambda n: n == kfn) is not None:
+                sets.append(members if pol else {chr(c) for c in range(0x20, 0x7f)} - members)
+                continue
+        if d.k == "call" and d.a[0] in prog.fns and prog.fns[d.a[0]].get("inputs") == ["char"] and contains_call(d.a[1][0], lambda n: n == kfn) is not None:
+            pe = PredEval(prog)
+            cs = pe.char_set(d.a[0], [chr(c) for c in range(0x20, 0x7f)])
+            if cs is not None:
+                sets.append(cs if pol else {chr(c) for c in range(0x20, 0x7f)} - cs)
+                continue
+    cs = _charset_feeding(b, bb)
+    if cs is not None:
+        sets.append(set(cs))
+    if not sets:
+        return None
+    out = set.intersection(*sets)
+    return "".join(sorted(out))
